@@ -24,6 +24,17 @@ reference tables), which are folded.
   path gives a trace of events (availability checks, reads, appended terms, raise) - the rules are phrased on these
   traces, so an elif chain, a lookup table, `match`, a helper returning the byte, `for c in it` or
   `while it.has_next(): c = next(it)` are all the same thing.  Nested loops are not unrolled (undecided).
+  The hex digits of an escape that are looked up in a constant table of the module (`TABLE[pair]`, `TABLE.get(pair)`,
+  `pair in TABLE`, `DIGITS.index(digit)`) are judged by folding the table (a comprehension over constants is a constant)
+  and comparing it completely with the reference table of hex spellings: both cases of a-f, unless the code normalised
+  the case of the digits first.  Missing spellings fork the path into found / not found; a complete, correct table IS the
+  term int(<digits>, 16).  `try` statements are followed for the raises the walker models itself (explicit `raise`, KeyError
+  / IndexError of a lookup in a constant table).
+* around the decoder (R5): string_token_to_bytes is walked from its entry to the decoding loop under the named assumption "the
+  argument is a STRING token"; the text of the literal is a symbolic term and slices / whole-text replacements / conversions
+  build terms over it as in the encoder analysis; `<constant> in <text>` tests fork the path and are kept as facts.  What is
+  handed to the iterator and what is returned without reaching the loop is judged against the token structure of a literal
+  (lemma L8) - never by decoding sample literals.
 * STRING terminal: the regular expression is parsed (`re._parser`) and its syntax tree inspected; "the body matches every
   character" is decided on the tree by an interval cover of the code point range / a complementary category pair, never
   by matching sample strings.
@@ -69,9 +80,30 @@ R2 (decoder)  1, 2 (has_next() / data-dependent tests fork the path; tests on un
               `& 0xFF`, itself an R2 obligation); L7 under the named assumption that the characters of a \\xHH / \\uHHHH
               escape are hex digits, int(<n digits>, 16) ranges over 0..16**n - 1 and equals 256 * <leading digits> + <low
               pair>, so `& K` yields the low pair iff K & (16**n - 1) == 0xFF and `% K` iff K == 256 (n > 2) / K > 255 (n == 2).
+              Hex digits through a table: 6 (the module's table / comprehension over constants folded, compared completely
+              with the reference table of the spellings of one hex digit / a digit pair, 22 resp. 484 keys), 5 (case analysis
+              found / not found over that reference vocabulary), 2 (try/except followed for modelled raises).  Lemmas: L9
+              positional notation - int(A, 16) * 16**len(B) + int(B, 16) == int(A + B, 16), `<< 4*len(B)` is that product and `|`
+              equals `+` there (disjoint bits); L10 int(s, 16) does not depend on the case of s, str.lower/upper/casefold map
+              a hex digit to the hex digit of the same value; L11 index()/find() of a one-character string in a sequence is the
+              position of its first occurrence (ValueError / -1 when absent).
               Quote stripping and the `& 0xFF` mask: 1, 3 (definitions inlined, slice/strip layers compared structurally).
 R3            5 (the escape letters CPython's repr(bytes) and the encoder can emit - a reference vocabulary - looked up
               in the case split of R2).
+R5 (around    1, 2 (paths pruned by the named assumption "the argument is a STRING token"; `<constant> in <text>` tests fork and
+ the loop)    are kept as path facts; other tests are followed both ways and mark the path guessed -> undecided), 3 (per-path terms
+              over the symbolic text of the literal for the iterator's argument and for values returned before the loop), 6 (a
+              `for` over a constant table of the module is its body once per entry; constants folded), 4 (token structure of
+              a literal's content as a finite abstract domain: plain character / backslash pair / hex escape).
+              Lemma L8 (str.replace scans left to right, non-overlapping; a backslash always starts a token, the backslash byte
+              is the pair backslash backslash, an unescaped double quote cannot occur inside a literal): (a) the pattern
+              backslash backslash matches exactly the escaped-backslash tokens; (b) a pattern backslash + X (X a plain token,
+              not the double quote) applied while escaped backslashes are still pairs matches inside backslash backslash X at the
+              second backslash; (c) applied after backslash backslash -> backslash it re-scans the produced backslash, and so
+              does the decoding loop after such a pass - no order of whole-text passes decodes both; (d) backslash + double
+              quote only matches its own token.  A path fact `S (not) in T` admits the content W iff S is (not) a substring of
+              W (two constants).  A return that bypasses the loop without any rewriting is wrong unless the facts exclude every
+              backslash pair of the reference table tables.ESCAPES.
 R4 (STRING)   1, 6 (compiled grammar terminals; regex *syntax tree*), 4 (interval cover of 0..0x10FFFF for the body's
               character class).  Lemma: L6 a category and its negation (\\s|\\S, \\d|\\D, \\w|\\W) partition the characters;
               `.` is every character except code 10 unless DOTALL.  Unmodelled classes -> undecided.
@@ -91,6 +123,10 @@ from csverif.q import FuncView, inline, raise_class
 # ============================================================================================ path walker over symbolic terms
 class _Unsupported(Exception):
     """The code uses a construct the interpreter does not model: the rule cannot locate its subject -> undecided."""
+
+
+class _NotConstant(Exception):
+    """A comprehension is not a constant of the analysed code (internal to `_Interp._comp`)."""
 
 
 class _Flow(Exception):
@@ -131,6 +167,10 @@ class _Sym:
             return f"int(<characters {', '.join(str(p - 2) for p in self.args[0])} after the escape letter>, {self.args[1]})"
         if self.tag == "mask":
             return f"{self.args[0]!r} {self.args[1]} 0x{self.args[2]:x}" if self.args[2] >= 0 else f"{self.args[0]!r} {self.args[1]} {self.args[2]}"
+        if self.tag == "lookup":
+            return f"<table entry for characters {', '.join(str(p - 2) for p in self.args[0])} after the escape letter: {self.args[1]}>"
+        if self.tag == "scaled":
+            return f"int(<characters {', '.join(str(p - 2) for p in self.args[0])} after the escape letter>, 16) * 16**{self.args[1]}"
         return f"{self.tag}({', '.join(map(repr, self.args))})"
 
 
@@ -157,7 +197,7 @@ _PURE_METHODS = {
     set: {"union", "intersection", "copy"},
     int: {"to_bytes", "bit_length"},
 }
-_NOT_NONE_TAGS = {"digits", "int", "bytesof", "buf", "iter", "repr", "slice", "rep", "condrep", "cat", "fmt", "char", "ord", "mask", "codec"}
+_NOT_NONE_TAGS = {"digits", "int", "bytesof", "buf", "iter", "repr", "slice", "rep", "condrep", "cat", "fmt", "char", "ord", "mask", "codec", "lookup", "scaled", "text", "toktype"}
 
 
 def _concrete(v, depth=0) -> bool:
@@ -386,6 +426,80 @@ class _Interp:
             except TypeError:
                 return self.unk(e)
         return out
+
+    # comprehensions of the analysed code over its own constants are folded (constant folding of a constant table, e.g.
+    # `{f"{v:02x}": v for v in range(256)}`); as soon as anything symbolic is involved nothing is folded
+    def _comp(self, e, kind):
+        saved = dict(self.env)
+        n_ev, n_dec = len(self.events), len(self.o.taken)
+        out = []
+        budget = [1 << 17]
+
+        def go(i):
+            if i == len(e.generators):
+                vals = [self.ev(e.key), self.ev(e.value)] if kind == "dict" else [self.ev(e.elt)]
+                if not _concrete(vals):
+                    raise _NotConstant()
+                out.append(tuple(vals) if kind == "dict" else vals[0])
+                return
+            g = e.generators[i]
+            seq = self.ev(g.iter)
+            if g.is_async or isinstance(seq, _Sym) or not _concrete(seq) or not isinstance(seq, (list, tuple, str, bytes, range, dict, set, frozenset)):
+                raise _NotConstant(seq)
+            for x in (sorted(seq, key=repr) if isinstance(seq, (set, frozenset)) else seq):
+                budget[0] -= 1
+                if budget[0] < 0:
+                    raise _NotConstant()
+                self.bind(g.target, x)
+                keep = True
+                for c in g.ifs:
+                    t = self.ev(c)
+                    if isinstance(t, _Sym) or not _concrete(t):
+                        raise _NotConstant()
+                    if not t:
+                        keep = False
+                        break
+                if keep:
+                    go(i + 1)
+
+        res = _NOHOOK
+        try:
+            go(0)
+            if kind == "dict":
+                res = dict(out)
+            elif kind == "set":
+                res = set(out)
+            else:
+                res = list(out)
+        except _NotConstant as nc:
+            if nc.args and isinstance(nc.args[0], _Sym):
+                res = self.sym_comp(e, nc.args[0])
+        except TypeError:
+            pass
+        finally:
+            self.env = saved
+        if len(self.events) != n_ev or len(self.o.taken) != n_dec:
+            raise _Unsupported("a comprehension reads the iterator / depends on the data (a nested loop, not unrolled)")
+        if res is _NOHOOK:
+            self.scan(e)
+            return self.unk(e)
+        return res
+
+    def sym_comp(self, e, seq):
+        """A comprehension whose (first non-constant) iterable is the symbolic value `seq`."""
+        return _NOHOOK
+
+    def ev_ListComp(self, e):
+        return self._comp(e, "list")
+
+    def ev_GeneratorExp(self, e):
+        return self._comp(e, "list")
+
+    def ev_SetComp(self, e):
+        return self._comp(e, "set")
+
+    def ev_DictComp(self, e):
+        return self._comp(e, "dict")
 
     def ev_UnaryOp(self, e):
         v = self.ev(e.operand)
@@ -618,6 +732,17 @@ class _Interp:
                     return int(*args)
                 if name == "dict":
                     return dict(*args, **kws)
+                if name == "range" and not kws and all(isinstance(a, int) and not isinstance(a, bool) for a in args):
+                    r = range(*args)
+                    return r if len(r) <= 1 << 17 else self.unk(e)
+                if name in ("enumerate", "zip", "reversed") and not kws and all(isinstance(a, (list, tuple, str, bytes, range, dict)) for a in args):
+                    import builtins
+
+                    return list(getattr(builtins, name)(*args))
+                if name in ("format", "divmod", "sum", "any", "all") and not kws:
+                    import builtins
+
+                    return getattr(builtins, name)(*args)
             except Exception:
                 return self.unk(e)
         if name == "dict" and not args:
@@ -721,6 +846,62 @@ class _Interp:
         if st.exc is not None:
             self.scan(st.exc)
         raise _Flow("raise", raise_class(st))
+
+    def st_Try(self, st):
+        """try/except/else/finally: a handler is entered for the raises the walker itself models - an explicit `raise` of the
+        analysed code and the KeyError / IndexError of a lookup in one of its constant tables.  Exceptions of operations that
+        are kept symbolic are not modelled (their handler paths are simply not walked: nothing is claimed about them)."""
+        pending = None
+        try:
+            try:
+                self.block(st.body)
+            except _Flow as fl:
+                if fl.kind != "raise":
+                    raise
+                h = self.handler_for(st, fl.value)
+                if h is None:
+                    raise
+                if h.name:
+                    self.env[h.name] = self.unk(h)
+                self.block(h.body)
+            else:
+                self.block(st.orelse)
+        except _Flow as fl:
+            pending = fl
+        if st.finalbody:
+            self.block(st.finalbody)  # a return / raise of the finally block replaces the pending one
+        if pending is not None:
+            raise pending
+
+    st_TryStar = st_Try
+
+    def handler_for(self, st, exc):
+        """The first handler of `st` that catches the exception class named `exc` (None: it propagates)."""
+        import builtins
+
+        def cls(name):
+            parts = (name or "").split(".")
+            if not (len(parts) == 1 or (len(parts) == 2 and parts[0] == "builtins")):
+                return None
+            c = getattr(builtins, parts[-1], None)
+            return c if isinstance(c, type) and issubclass(c, BaseException) else None
+
+        for h in st.handlers:
+            if h.type is None:
+                return h
+            nodes = h.type.elts if isinstance(h.type, ast.Tuple) else [h.type]
+            for n in nodes:
+                name = dotted(n)
+                if name is None or exc is None:
+                    raise _Unsupported("exception matching of a try statement is not understood")
+                if name == exc:
+                    return h
+                a, b = cls(exc), cls(name)
+                if a is None or b is None or name.split(".")[-1] in self.mod.consts or name.split(".")[-1] in self.env:
+                    raise _Unsupported(f"exception matching `{exc}` against `except {name}` is not understood")
+                if issubclass(a, b):
+                    return h
+        return None
 
     def st_Continue(self, st):
         raise _Flow("continue")
@@ -990,6 +1171,8 @@ def _show(v) -> str:
     if isinstance(v, _Sym):
         if v.tag == "param":
             return "value"
+        if v.tag == "text":
+            return "<text of the token>"
         if v.tag == "cat":
             return " + ".join(_show(p) for p in _flatten(v))
         if v.tag == "slice":
@@ -1366,6 +1549,7 @@ class _Dec(_Interp):
         self.pos = 0
         self.avail = 0
         self.short = None
+        self.hexmemo = {}
         self.shared = shared  # per loop: facts that do not depend on the characters (names assigned in the loop, values defined before it)
         if "assigned" not in shared:
             shared["assigned"], shared["accumulated"] = _loop_assigned(loop)
@@ -1495,6 +1679,10 @@ class _Dec(_Interp):
             keys = self._members(b)
             if keys is not None:
                 return (self.pick(a.args[0], keys) is not None) == isinstance(op, ast.In)
+        if isinstance(op, (ast.In, ast.NotIn)) and self._is_digits(a) and isinstance(b, (dict, set, frozenset, list, tuple)) and _concrete(b):
+            r = self.hex_lookup(b, a, "the table the digits are looked up in")
+            if r is not None:
+                return r[0] == isinstance(op, ast.In)
         return _Sym("unk", ("cmp",))
 
     # ---------------------------------------------------------------- iterator protocol
@@ -1622,6 +1810,51 @@ class _Dec(_Interp):
                     pass
         raise _Unsupported(f"assignment to `{src(target)}`")
 
+    # ---------------------------------------------------------------- tables keyed by the hex digits of an escape
+    def hex_lookup(self, table, d, what):
+        """Lookup of the symbolic hex digits `d` (one digit or a pair) in a constant table of the analysed code.
+
+        The table is compared completely with the reference table `_hex_spellings` (every spelling of the digits the
+        documented escape syntax admits - both cases unless the digits were case-normalised - with its value): when some
+        spellings are absent the path forks into "found" / "not found" (a data fork: both are feasible for valid escapes);
+        when the entries that are present all carry the value of their key, the result IS the term int(<digits>, 16).
+        Returns None (not this kind of lookup) or (found, value) - value None when the table has no values (a set/list)."""
+        pos = tuple(d.args[0])
+        case = d.args[1] if len(d.args) > 1 else None
+        if d.typ != "str" or not 1 <= len(pos) <= 2 or isinstance(table, (str, bytes)):
+            return None
+        ref = _hex_spellings(len(pos), case)
+        try:
+            present = [sp for sp in ref if sp in table]
+        except TypeError:
+            return None
+        missing = [sp for sp in ref if sp not in set(present)]
+        key = (id(table), pos, case)
+        if key in self.hexmemo:
+            found = self.hexmemo[key]
+        elif missing and present:
+            found = self.o.decide()
+        else:
+            found = bool(present)
+        self.hexmemo[key] = found
+        if not found:
+            unit = "a hexadecimal digit" if len(pos) == 1 else "a pair of hexadecimal digits"
+            self.events.append(("note", f"{what} has no entry for {len(missing)} of the {len(ref)} spellings of {unit} (e.g. {', '.join(map(repr, missing[:3]))})"))
+            return False, None
+        if not isinstance(table, dict):
+            return True, None
+        vals = [table[sp] for sp in present]
+        if not all(isinstance(v, int) and not isinstance(v, bool) for v in vals):
+            return True, _Sym("unk", (what,))
+        wrong = [sp for sp in present if table[sp] != ref[sp]]
+        if wrong:
+            return True, _Sym("lookup", (pos, f"{what} maps {wrong[0]!r} to {table[wrong[0]]}"))
+        return True, _Sym("int", (pos, 16))
+
+    @staticmethod
+    def _is_digits(v) -> bool:
+        return isinstance(v, _Sym) and v.tag == "digits" and v.typ == "str"
+
     # ---------------------------------------------------------------- symbolic characters and hex digits
     def sym_truth(self, v):
         if v.tag == "int":
@@ -1640,13 +1873,34 @@ class _Dec(_Interp):
             a = args[0]
             if isinstance(a, _Sym) and a.tag == "digits" and recv == "":
                 return _Sym("digits", a.args, "str")
-            if isinstance(a, (list, tuple)) and a and all(isinstance(x, _Sym) and x.tag == "digits" for x in a) and recv == "":
-                return _Sym("digits", (tuple(p for x in a for p in x.args[0]),), "str")
+            if isinstance(a, (list, tuple)) and a and all(isinstance(x, _Sym) and x.tag == "digits" for x in a) and recv == "" and len({x.args[1:] for x in a}) == 1:
+                return _Sym("digits", (tuple(p for x in a for p in x.args[0]),) + a[0].args[1:], "str")
         if isinstance(recv, dict) and attr == "get" and 1 <= len(args) <= 2 and not kws and self._char_pos(args[0]) is not None:
             keys = self._members(recv)
             if keys is not None:
                 k = self.pick(self._char_pos(args[0]), keys)
                 return recv[k] if k is not None else (args[1] if len(args) == 2 else None)
+        what = f"`{src(e.func.value)[:40]}`" if isinstance(e.func, ast.Attribute) else "the table"
+        if isinstance(recv, dict) and attr == "get" and 1 <= len(args) <= 2 and not kws and self._is_digits(args[0]) and _concrete(recv):
+            r = self.hex_lookup(recv, args[0], what)
+            if r is not None:
+                return r[1] if r[0] else (args[1] if len(args) == 2 else None)
+        if isinstance(recv, (str, list, tuple)) and attr in ("index", "find") and len(args) == 1 and not kws and self._is_digits(args[0]) and len(args[0].args[0]) == 1 \
+                and _concrete(recv) and (attr == "index" or isinstance(recv, str)):
+            first = {}
+            for i, x in enumerate(recv):
+                if isinstance(x, str) and len(x) == 1:
+                    first.setdefault(x, i)  # index()/find() of a one-character string: the position of its first occurrence
+            r = self.hex_lookup(first, args[0], what)
+            if r is not None:
+                if r[0]:
+                    return r[1]
+                if attr == "index":
+                    raise _Flow("raise", "ValueError")
+                return -1
+        if self._is_digits(recv) and attr in ("lower", "upper", "casefold") and not args and not kws:
+            # case normalisation of the digits: only the spellings of that case remain to be looked up; int() ignores the case
+            return _Sym("digits", (recv.args[0], "upper" if attr == "upper" else "lower"), "str")
         return _NOHOOK
 
     def sym_function(self, e, name, args, kws):
@@ -1671,9 +1925,23 @@ class _Dec(_Interp):
         return _NOHOOK
 
     def sym_binop(self, e, a, b):
-        if isinstance(e.op, ast.Add) and all(isinstance(x, _Sym) and x.tag == "digits" for x in (a, b)) and a.typ == b.typ:
-            return _Sym("digits", (a.args[0] + b.args[0],), a.typ)
+        if isinstance(e.op, ast.Add) and all(isinstance(x, _Sym) and x.tag == "digits" for x in (a, b)) and a.typ == b.typ and a.args[1:] == b.args[1:]:
+            return _Sym("digits", (a.args[0] + b.args[0],) + a.args[1:], a.typ)
         a, b = self.resolve(a), self.resolve(b)
+        # lemma L9 (positional notation): int(A, 16) * 16**len(B) + int(B, 16) == int(A + B, 16); `<< 4*len(B)` is that product and
+        # `|` equals `+` here because int(B, 16) < 16**len(B) while the low 4*len(B) bits of the scaled value are clear
+        for x, y in ((a, b), (b, a)):
+            if isinstance(x, _Sym) and x.tag == "int" and x.args[1] == 16 and isinstance(y, int) and not isinstance(y, bool):
+                m = None
+                if isinstance(e.op, ast.Mult) and y > 1 and y == 16 ** ((y.bit_length() - 1) // 4):
+                    m = (y.bit_length() - 1) // 4
+                elif isinstance(e.op, ast.LShift) and x is a and y > 0 and y % 4 == 0:
+                    m = y // 4
+                if m is not None:
+                    return _Sym("scaled", (x.args[0], m))
+            if isinstance(x, _Sym) and x.tag == "scaled" and isinstance(y, _Sym) and y.tag == "int" and y.args[1] == 16 and len(y.args[0]) == x.args[1] \
+                    and isinstance(e.op, (ast.Add, ast.BitOr)):
+                return _Sym("int", (tuple(x.args[0]) + tuple(y.args[0]), 16))
         if _concrete(a) and _concrete(b) and type(e.op) in _BINOPS:
             try:
                 return _BINOPS[type(e.op)](a, b)
@@ -1693,10 +1961,16 @@ class _Dec(_Interp):
         if isinstance(base, _Sym) and base.tag == "digits" and _concrete(idx):
             try:
                 if is_slice:
-                    return _Sym("digits", (base.args[0][slice(*idx)],), base.typ)
-                return _Sym("digits", ((base.args[0][idx],),), "str")
+                    return _Sym("digits", (base.args[0][slice(*idx)],) + base.args[1:], base.typ)
+                return _Sym("digits", ((base.args[0][idx],),) + base.args[1:], "str")
             except Exception:
                 return _NOHOOK
+        if isinstance(base, dict) and not is_slice and self._is_digits(idx) and _concrete(base):
+            r = self.hex_lookup(base, idx, f"`{src(e.value)[:40]}`")
+            if r is not None:
+                if not r[0]:
+                    raise _Flow("raise", "KeyError")
+                return r[1]
         if isinstance(base, dict) and not is_slice and self._char_pos(idx) is not None:
             keys = self._members(base)
             if keys is not None:
@@ -1848,6 +2122,19 @@ def _decoder(ctx) -> _Decoder:
     return d
 
 
+_HEX_LOWER = "0123456789abcdef"
+
+
+def _hex_spellings(n, case=None):
+    """Reference table: every spelling of `n` hexadecimal digits -> its value.  The documented escapes \\xHH / \\uHHHH admit the
+    digits 0-9, a-f and A-F; `case` = "lower" / "upper" when the analysed code normalised the case of the digits first."""
+    alphabet = {"lower": _HEX_LOWER, "upper": _HEX_LOWER.upper()}.get(case, _HEX_LOWER + "ABCDEF")
+    out = {"": 0}
+    for _ in range(n):
+        out = {sp + ch: 16 * v + _HEX_LOWER.index(ch.lower()) for sp, v in out.items() for ch in alphabet}
+    return out
+
+
 def _hexbyte(v, positions):
     return isinstance(v, _Sym) and v.tag == "int" and v.args == (tuple(positions), 16)
 
@@ -1866,6 +2153,8 @@ def _low_pair(v, want):
         return False
     if v.tag == "int":
         return v.args == (tuple(want), 16)
+    if v.tag == "lookup":
+        return False  # a table entry that differs from the value of its key (complete table comparison, see hex_lookup)
     if v.tag != "mask":
         return None
     ops = []
@@ -1993,10 +2282,12 @@ def r2(ctx):
                     seen_full = True
                     apps = p.appends()
                     consumed = p.pos - 2
+                    notes = "".join(f" - {e[1]}" for e in p.events if e[0] == "note")
                     if p.end not in ("end", "continue"):
-                        bad.append(f"\\{letter} with all {need} digits available ends with {p.end}")
+                        bad.append(f"\\{letter} with all {need} digits available ends with {p.end}{' ' + str(p.events[-1][1]) if p.end == 'raise' else ''}"
+                                   f" (required: every spelling of the hex digits decodes to a byte){notes}")
                     elif len(apps) != 1:
-                        bad.append(f"\\{letter} appends {len(apps)} values (required: exactly one byte)")
+                        bad.append(f"\\{letter} appends {len(apps)} values (required: exactly one byte){notes}")
                     elif any(_is_unknown(a) for a in apps):
                         und.append(f"\\{letter}: appended value not understood")
                     elif consumed != need:
@@ -2004,7 +2295,7 @@ def r2(ctx):
                     elif _low_pair(apps[0], want) is None:
                         und.append(f"\\{letter} appends {apps[0]!r}: not known to be the value of the low digit pair")
                     elif not _low_pair(apps[0], want):
-                        bad.append(f"\\{letter} appends {apps[0]!r}; required int(<characters {want[0] - 2}, {want[1] - 2} after the escape letter>, 16), the low byte pair"
+                        bad.append(f"\\{letter} appends {apps[0]!r}{notes}; required int(<characters {want[0] - 2}, {want[1] - 2} after the escape letter>, 16), the low byte pair"
                                    + (" (a constant mask / modulus over all the digits gives the low pair only if it keeps bits 0..7 and clears every higher bit: & 0xFF, % 256)" if isinstance(apps[0], _Sym) and apps[0].tag == "mask" else ""))
                 else:
                     # not enough characters left: ValueError, nothing appended
@@ -2106,6 +2397,11 @@ def _r2_strip(ctx, f):
         elif isinstance(x, ast.Call) and isinstance(x.func, ast.Attribute) and x.func.attr in ("strip", "lstrip", "rstrip", "removeprefix", "removesuffix"):
             layers.append((x.func.attr, x))
             x = x.func.value
+        elif isinstance(x, ast.Call) and isinstance(x.func, ast.Attribute) and x.func.attr == "replace" and len(x.args) == 2 and not x.keywords \
+                and all(isinstance(_const(a), str) for a in x.args) and (not layers or '"' not in _const(x.args[0]) + _const(x.args[1])):
+            # a whole-text replacement applied after the delimiters were removed, or one that neither matches nor produces a
+            # quote: not about the delimiters (it is judged by R5)
+            x = x.func.value
         else:
             break
     if not about_token(x):
@@ -2145,6 +2441,354 @@ def r3(ctx):
     emitted = {"x", "n", "r", "t", "\\", "'", '"'}
     miss = sorted(ch for ch in emitted if not d.handled(ch))
     ctx.ob("R3", "VOCAB", d.f, "encoder output accepted", not miss, f"escape letters value_to_string can emit (\\xHH \\n \\r \\t \\\\ \\' \\\") not handled by the decoder: {miss}")
+
+
+# ============================================================================================ whole-text rewriting around the decoder
+class _Txt(_Enc):
+    """Path-wise value flow of string_token_to_bytes from its entry up to the decoding loop, under the named assumption that the
+    argument is a STRING token (`isinstance(token, Token)` holds, `token.type` equals "STRING").  The text of the literal is the
+    symbolic term `text`; slices / replacements / conversions applied to it build terms exactly as in the encoder analysis.
+    A test `<constant> in <term over the text>` forks the path and is remembered as a fact of the path.  The walk of a path
+    ends at the first data-dependent loop (the decoding loop - analysed by `_Dec`) or at a `return`; a `for` over a constant
+    table of the analysed code is its body once per entry (constant propagation of the table, not a loop over data)."""
+
+    def __init__(self, ctx, f, oracle, loop=None):
+        _Enc.__init__(self, ctx, f, oracle, "Token")
+        self.loop = loop  # the decoding loop `_Decoder` analysed (None: not understood - the first data-dependent loop ends the walk)
+        self.text = _Sym("text", (), "str")
+        self.facts = []  # (term, constant, holds)
+        self.sinks = []  # terms handed to the StringIterator constructor
+
+    def isinstance_of(self, e, value, types_node):
+        if value == self.param:
+            nodes = types_node.elts if isinstance(types_node, (ast.Tuple, ast.List)) else [types_node]
+            names = [(dotted(n) or "?").split(".")[-1] for n in nodes]
+            # named assumption: the argument is a lark Token (a str subclass); nothing else is known about its class
+            return True if "Token" in names or "str" in names else None
+        return _Enc.isinstance_of(self, e, value, types_node)
+
+    def over_text(self, v, depth=0) -> bool:
+        if not isinstance(v, _Sym) or depth > 40:
+            return False
+        return v.tag == "text" or any(self.over_text(a, depth + 1) for a in v.args)
+
+    def as_str(self, v):
+        if v == self.param:
+            return self.text  # a lark Token is a str: str(token) is its text
+        return _Enc.as_str(self, v)
+
+    def ev_Attribute(self, e):
+        v = self.ev(e.value)
+        if v == self.param and e.attr == "value":
+            return self.text
+        if v == self.param and e.attr == "type":
+            return _Sym("toktype", (), "str")
+        return self.unk(e)
+
+    def sym_subscript(self, e, base, idx, is_slice):
+        if base == self.param:
+            base = self.text
+        return _Enc.sym_subscript(self, e, base, idx, is_slice)
+
+    def sym_compare(self, op, a, b):
+        for x, y in ((a, b), (b, a)):
+            if isinstance(x, _Sym) and x.tag == "toktype" and isinstance(op, (ast.Eq, ast.NotEq)) and isinstance(y, str):
+                return (y == "STRING") == isinstance(op, ast.Eq)  # named assumption: the token is a STRING token
+        if isinstance(a, _Sym) and a.tag == "toktype" and isinstance(op, (ast.In, ast.NotIn)) and isinstance(b, (list, tuple, set, frozenset)) and _concrete(b):
+            return ("STRING" in b) == isinstance(op, ast.In)
+        if isinstance(op, (ast.In, ast.NotIn)) and isinstance(a, str) and isinstance(b, _Sym) and b.typ == "str" and self.over_text(b):
+            holds = self.o.decide()  # a data fork: literals with and without the substring both exist
+            self.facts.append((b, a, holds))
+            return holds == isinstance(op, ast.In)
+        return _Sym("unk", ("cmp",))
+
+    def sym_comp(self, e, seq):
+        if self.over_text(seq):
+            return _Sym("opaque", (src(e)[:60], seq), None)  # a per-character conversion of (a term over) the text
+        return _NOHOOK
+
+    def call_hook(self, e):
+        if _is_iter_ctor(self.ctx, self.f, e):
+            init = self.ctx.repo.func(_IT_CLS + ".__init__") if self.ctx.repo.has_func(_IT_CLS + ".__init__") else None
+            node = None
+            if init is not None:
+                b = bind_args(e, init.node, skip_self=True)
+                node = list(b.values())[0] if len(b) == 1 else None
+            if node is None and e.args:
+                node = e.args[0]
+            self.sinks.append(self.ev(node) if node is not None else self.unk(e))
+            return _ITER
+        return _Enc.call_hook(self, e)
+
+    def st_For(self, st):
+        if st is self.loop:
+            self.ev(st.iter)
+            raise _Flow("loop", None)
+        seq = self.ev(st.iter)
+        if not isinstance(seq, _Sym) and _concrete(seq) and type(seq) in (type({}.items()), type({}.keys()), type({}.values()), set, frozenset):
+            seq = sorted(seq, key=repr) if isinstance(seq, (set, frozenset)) else list(seq)
+        if isinstance(seq, (list, tuple, str, bytes, range, dict)) and _concrete(seq) and len(seq) <= 64 and not st.orelse:
+            for x in seq:
+                self.bind(st.target, x)
+                try:
+                    self.block(st.body)
+                except _Flow as fl:
+                    if fl.kind == "break":
+                        break
+                    if fl.kind != "continue":
+                        raise
+            return
+        if self.loop is not None:
+            raise _Unsupported(f"a loop over `{src(st.iter)[:40]}` before the decoding loop")
+        raise _Flow("loop", seq)
+
+    def st_While(self, st):
+        if self.loop is not None and st is not self.loop:
+            raise _Unsupported("a while loop before the decoding loop")
+        raise _Flow("loop", None)
+
+    st_AsyncFor = st_While
+
+    def st_With(self, st):
+        raise _Unsupported("with statement")
+
+
+def _is_iter_ctor(ctx, f, e) -> bool:
+    try:
+        c = ctx.rs.resolve_call(f, e)
+        if c is not None and c.kind == "class" and c.fq == _IT_CLS:
+            return True
+    except Exception:
+        pass
+    return (dotted(e.func) or "").split(".")[-1] == _IT_CLS.split(".")[-1]
+
+
+def _text_paths(ctx, f, loop=None):
+    """[(end kind, value, guessed, facts, sinks)] for the paths of `f` up to the decoding loop."""
+    def run(o):
+        it = _Txt(ctx, f, o, loop)
+        try:
+            it.block(f.node.body)
+            res = ("return", None)
+        except _Flow as fl:
+            res = (fl.kind, fl.value)
+        return res[0], res[1], it.guess_at is not None, list(it.facts), list(it.sinks)
+
+    return _all_paths(run, limit=256)
+
+
+def _peel_text(x):
+    """Unary transformations on top of (a slice of) the literal's text -> (passes in the order they are applied, core).
+    A pass is ("rep", a, b) for a whole-text str.replace / literal re.sub, or ("other", description)."""
+    passes = []
+    while isinstance(x, _Sym):
+        if x.tag == "rep":
+            passes.append(("rep", x.args[1], x.args[2]))
+            x = x.args[0]
+        elif x.tag == "condrep":
+            passes.append(("other", f"conditional replace {x.args[1]} -> {x.args[2]}"))
+            x = x.args[0]
+        elif x.tag == "fmt" and isinstance(x.args[0], _Sym):
+            x = x.args[0]
+        elif x.tag == "codec":
+            passes.append(("conv", f".{x.args[1]}({x.args[2]!r})"))
+            x = x.args[0]
+        elif x.tag == "opaque" and len([a for a in x.args[1:] if isinstance(a, _Sym)]) == 1:
+            passes.append(("conv", x.args[0]))
+            x = [a for a in x.args[1:] if isinstance(a, _Sym)][0]
+        else:
+            break
+    passes.reverse()
+    return passes, x
+
+
+def _text_subject(term, witness):
+    """The constant a fact about `term` talks about when the content of the literal is `witness`: the whole token text for
+    `text`, the content for text[1:-1]; None for any other term."""
+    if isinstance(term, _Sym) and term.tag == "text":
+        return '"' + witness + '"'
+    ns = _net_slice(term)
+    if ns is not None and ns[:2] == (1, -1) and isinstance(ns[2], _Sym) and ns[2].tag == "text":
+        return witness
+    return None
+
+
+def _admits(facts, witness):
+    """Do the facts of a path (outcomes of `<constant> in <text>` tests) admit the literal content `witness`?  True / False / None.
+    (`S in T` holds for T = W iff the constant S is a substring of the constant W - both are constants of the analysed code /
+    of the lemma, nothing of /repo is evaluated.)"""
+    for term, const, holds in facts:
+        subj = _text_subject(term, witness)
+        if subj is None:
+            return None
+        if (const in subj) != holds:
+            return False
+    return True
+
+
+def _judge_passes(passes, facts, loop_letters, via_loop):
+    """Whole-text replacement passes applied to the text of a literal (before the decoding loop when `via_loop`, else as a
+    decoder of their own): (bad, und).
+
+    Token structure of a literal's content (the property's syntax; it is what the encoder emits): a sequence of tokens, each a
+    plain character or a backslash followed by a letter (plus the hex digits of \\x / \\u); a backslash always starts a token
+    and the backslash byte is the pair backslash + backslash; an unescaped double quote cannot occur.
+
+    Lemma L8 (str.replace scans left to right, non-overlapping):
+     (a) the pattern backslash + backslash matches exactly the escaped-backslash tokens (at a token boundary a pair backslash + X,
+         X not a backslash, matches neither at its first nor at its second character);
+     (b) a pattern backslash + X (X not a backslash, X a character that can be a plain token) applied while escaped backslashes are
+         still pairs matches inside the content  backslash backslash X  at the SECOND backslash: the escaped backslash is split
+         and (backslash byte, X) is decoded as something else;
+     (c) applied after the pass backslash backslash -> backslash, the same pattern matches the backslash that pass produced
+         followed by the plain X (re-scan): wrong as well - so no order of such passes decodes both the escaped backslash and
+         backslash + X; the same holds when the decoding loop runs after a pass that produced a backslash;
+     (d) backslash + double quote only ever matches its own token (the quote is never a plain token inside a literal)."""
+    bad, und = [], []
+    bs_done = None  # replacement text of an earlier pass for the escaped backslash
+    unknown = None  # an earlier pass after which the token structure is not known
+    interprets = [i for i, p in enumerate(passes) if p[0] == "rep" and len(p[1]) == 2 and p[1][0] == "\\" and p[1][1] != "\\"]
+    for i, p in enumerate(passes):
+        if p[0] == "conv":
+            continue
+        if p[0] == "other":
+            und.append(f"the text of the literal passes through a {p[1]}, which is not understood")
+            unknown = p[1]
+            continue
+        a, b = p[1], p[2]
+        if not a or a == b:
+            continue
+        shown = f"replace({a!r}, {b!r})"
+        if unknown is not None:
+            und.append(f"{shown} is applied to text that was rewritten before in a way that is not understood")
+            continue
+        if a == "\\\\":
+            later = via_loop or any(j > i for j in interprets)
+            if b == "\\" and later:
+                nxt = [passes[j][1][1] for j in interprets if j > i and passes[j][1][1] != '"'] or sorted(x for x in loop_letters if x.isalpha())[:1] or ["n"]
+                w = "\\\\" + nxt[0]
+                adm = _admits(facts, w)
+                msg = (f"{shown} is applied to the whole text before {'the decoding loop' if not [j for j in interprets if j > i] else 'the replacement of backslash + ' + repr(nxt[0])}: "
+                       f"the backslash it produces is scanned again as the start of an escape, so the content {w!r} (backslash byte, {nxt[0]!r}) decodes to something else")
+                (bad if adm else und).append(msg if adm else msg + " - not known whether the conditions of the path admit such a literal")
+                bs_done = b
+            elif "\\" in b and later:
+                und.append(f"{shown} produces a backslash that a later stage interprets; the decoded value is not worked out")
+                unknown = shown
+            else:
+                bs_done = b
+                if "\\" not in b and b != "\\":
+                    unknown = shown
+            continue
+        if len(a) == 2 and a[0] == "\\":
+            ch = a[1]
+            if ch == '"':
+                if b != '"':
+                    und.append(f"{shown}: the escaped double quote is rewritten to {b!r}; not worked out")
+                    unknown = shown
+                continue
+            w = "\\\\" + ch
+            adm = _admits(facts, w)
+            if bs_done is None:
+                msg = (f"{shown} is applied to the whole text: in the content {w!r} (an escaped backslash followed by the plain character {ch!r}, what the encoder emits for "
+                       f"the bytes backslash + {ch!r}) it matches at the second backslash, so the escaped backslash is split and the bytes are not (0x5c, 0x{ord(ch):02x})")
+            elif bs_done == "\\":
+                msg = (f"{shown} is applied after the escaped backslash was already replaced by a backslash: in the content {w!r} that backslash followed by the plain {ch!r} "
+                       f"is scanned again as an escape")
+            else:
+                und.append(f"{shown} after the escaped backslash was rewritten to {bs_done!r}: not worked out")
+                continue
+            if b[:1] == "\\":
+                und.append(msg + "; the replacement starts with a backslash itself - the decoded value is not worked out")
+                unknown = shown
+            elif adm:
+                bad.append(msg)
+            else:
+                und.append(msg + " - not known whether the conditions of the path admit such a literal")
+            continue
+        und.append(f"the text of the literal is additionally rewritten ({shown}); not known to keep the decoded bytes")
+        unknown = shown
+    return bad, und
+
+
+def r5(ctx):
+    """The decoding loop is the only decoder: what reaches it, and what is returned without it."""
+    d = _decoder(ctx)
+    f = d.f
+    t_sink, t_exit = "whole-text rewriting before the decoding loop", "STRING tokens are decoded by the loop on every path"
+    try:
+        paths = _text_paths(ctx, f, d.loop if d.error is None else None)
+    except _Unsupported as e:
+        for text, kind in ((t_sink, "ESC"), (t_exit, "EXIT")):
+            ctx.undecided("R5", kind, f, text, f"string_token_to_bytes is not understood by the path-wise value-flow analysis ({e})")
+        return
+    letters = set(d.letters()) if d.error is None else {k for k in tables.ESCAPES}
+    s_bad, s_und, s_seen = [], [], 0
+    e_bad, e_und, e_seen = [], [], 0
+    loops = 0
+    for kind, val, guessed, facts, sinks in paths:
+        for sink in sinks:
+            passes, core = _peel_text(sink)
+            ns = _net_slice(core)
+            if ns is None or not (isinstance(ns[2], _Sym) and ns[2].tag == "text"):
+                if any(p[0] != "conv" for p in passes):
+                    s_und.append(f"the text handed to the iterator is {_show(sink)[:80]}, which is not understood")
+                continue
+            s_seen += 1
+            bad, und = _judge_passes([p for p in passes], facts, letters, True)
+            if any(p[0] == "conv" for p in passes):
+                und.append(f"the text handed to the iterator is converted first ({[p[1] for p in passes if p[0] == 'conv'][0]}); not understood")
+            (s_und if guessed else s_bad).extend(bad)
+            s_und.extend(und)
+        if kind == "loop":
+            loops += 1
+            continue
+        if kind != "return":
+            e_und.append(f"a path for a STRING token ends with {kind} before the decoding loop; whether a valid literal can take it is not worked out")
+            continue
+        if val == _Sym("param", (), "Token"):
+            if not guessed:
+                e_bad.append("a STRING token is returned undecoded (as the token itself) on a path that does not depend on an unknown condition")
+            else:
+                e_und.append("on a condition that is not understood a STRING token is returned as it is")
+            continue
+        e_seen += 1
+        passes, core = _peel_text(val)
+        ns = _net_slice(core)
+        if ns is None or not (isinstance(ns[2], _Sym) and ns[2].tag == "text"):
+            e_und.append(f"a STRING token makes the function return {_show(val)[:80]} without the decoding loop; that value is not understood")
+            continue
+        if guessed:
+            e_und.append(f"on a condition that is not understood the function returns {_show(val)[:80]} without the decoding loop")
+            continue
+        reps = [p for p in passes if p[0] != "conv"]
+        bad, und = _judge_passes(passes, facts, letters, False)
+        if bad:
+            e_bad.extend(f"a path returns the text decoded by whole-text replacements instead of the decoding loop: {b}" for b in bad)
+            continue
+        if und or reps:
+            e_und.extend(und or ["a path decodes the text by whole-text replacements instead of the loop; not worked out"])
+            continue
+        # no rewriting at all: the characters of the text are returned as they are - correct only for a text without escapes
+        wit = [("\\" + k) for k, byte in tables.ESCAPES.items() if byte is not None]
+        adm = [_admits(facts, w) for w in wit]
+        if any(a is True for a in adm):
+            w = wit[adm.index(True)]
+            e_bad.append(f"a path returns the characters of the text ({_show(val)[:60]}) without the decoding loop although its conditions admit a literal with escapes "
+                         f"(e.g. the content {w!r}): the escape is not decoded")
+        elif any(a is None for a in adm):
+            e_und.append(f"a path returns {_show(val)[:60]} without the decoding loop; its conditions are not understood")
+        else:
+            e_und.append(f"a path returns {_show(val)[:60]} for a text without escapes instead of running the decoding loop; that conversion is not analysed")
+    if d.error is not None:
+        for und in (s_und, e_und):
+            und.append(f"the decoding loop itself is not understood ({d.error}): only what happens before the first loop was looked at")
+    if not s_seen and not s_bad and not s_und:
+        s_und.append("the text handed to the decoding loop could not be located" if loops else "no path reaches a decoding loop")
+    _verdict(ctx, "R5", "ESC", f, t_sink, s_bad, s_und, "the decoding loop receives (a slice of) the token's text; no whole-text replacement is applied to it first", d.loop)
+    if not loops and not e_bad and not e_und:
+        e_und.append("no path reaches a decoding loop")
+    _verdict(ctx, "R5", "EXIT", f, t_exit, e_bad, e_und, "under the assumption that the argument is a STRING token every path runs the decoding loop; nothing is returned before it", d.loop)
 
 
 # ============================================================================================ the STRING terminal
@@ -2310,7 +2954,15 @@ def run(ctx):
         "hex escapes check availability before consuming (cursor-offset typestate), consume exactly their digits and append "
         "int(<low digit pair>, 16) - or the number parsed from all digits reduced by a constant mask / modulus that provably leaves "
         "exactly the low byte (known-bits lemma L7) -, an ordinary character is appended as ord(c) exactly once (a constant mask is judged by a known-bits "
-        "lemma over 0..255); every escape letter the encoder can emit is one the decoder handles. The STRING regex is inspected on its "
+        "lemma over 0..255); a table of the module that converts the hex digits is folded and compared completely with the reference table "
+        "of hex spellings (both cases; a missing spelling is a path on which a complete escape raises or yields the default, a complete "
+        "correct table is int(<digits>, 16)); every escape letter the encoder can emit is one the decoder handles. Around the loop (R5): "
+        "under the named assumption that the argument is a STRING token the function is walked from its entry to the decoding loop with the "
+        "text of the literal symbolic; whole-text str.replace passes applied to what the iterator receives, or used as a decoder of their "
+        "own on a path that returns before the loop, are judged against the token structure of a literal (lemma L8: a pattern backslash + X "
+        "matches the second half of an escaped backslash followed by a plain X; after backslash backslash -> backslash the produced backslash "
+        "is scanned again), with the path's `<constant> in <text>` conditions checked against the witness content; a return that bypasses the "
+        "loop without decoding needs conditions that exclude every escape. The STRING regex is inspected on its "
         "parsed syntax tree (opening quote, lazy body whose character class covers every code point - interval cover or complementary "
         "categories -, closing quote preceded by an even run of backslashes)."
     )
@@ -2320,6 +2972,11 @@ def run(ctx):
         "escapers other than repr() and the unicode_escape codec, replacements of patterns longer than backslash + one character, hex escapes "
         "reduced by anything but a constant & / % (reported as undecided)",
         "decoders that carry state between characters, unroll nested loops, or hand the iterator to unmodelled code (reported as undecided)",
+        "hex digits converted by anything but int(.., 16), a constant table / digit string of the module (one digit or a pair) or the nibble "
+        "arithmetic of lemma L9; exceptions of operations kept symbolic (their handlers are not walked)",
+        "paths that return before the decoding loop with a conversion of an escape-free text (reported as undecided), whole-text rewrites other "
+        "than str.replace / literal re.sub of backslash pairs, regex- or callback-based decoders (reported as undecided); that the value "
+        "returned after the loop is exactly the bytes of the accumulator is not checked",
         "STRING bodies whose character class uses a single category or scoped flags other than DOTALL (reported as undecided)",
     ]
     rep.trusted_base = [
@@ -2339,9 +2996,16 @@ def run(ctx):
         "lemma L5: for 0 <= x <= 255, x & K == x iff the low eight bits of K are all set, and x % K == x iff K > 255",
         "lemma L7 (assumption: the characters of a hex escape are hex digits): int(<n digits>, 16) covers 0..16**n - 1 and is 256 * <leading digits> + "
         "<low pair>; `& K` yields the low pair iff K & (16**n - 1) == 0xFF, `% K` iff K == 256 (n > 2) or K > 255 (n == 2)",
+        "reference table of hex spellings: a hex digit is one of 0-9, a-f, A-F with value 0..15, a pair has value 16 * first + second",
+        "lemma L8: str.replace scans left to right without overlaps; inside a literal a backslash always starts a token, the backslash byte is backslash "
+        "backslash and an unescaped double quote cannot occur: backslash backslash matches exactly the escaped-backslash tokens, backslash + X (X plain) "
+        "matches inside backslash backslash X at the second backslash, and after backslash backslash -> backslash the produced backslash is re-scanned",
+        "lemma L9: int(A, 16) * 16**len(B) + int(B, 16) == int(A + B, 16) (also with << and |); L10: int(s, 16) ignores the case of s; L11: index()/find() "
+        "of a one-character string give the position of its first occurrence",
         "lemma L6: a regex category and its negation partition the characters; `.` matches every character except code 10 unless DOTALL",
     ]
     r1(ctx)
     r2(ctx)
     r3(ctx)
     r4(ctx)
+    r5(ctx)
